@@ -240,3 +240,19 @@ def corpus(alphabet: list[str], nmax: int, *, nmin: int = 1, modes=(True,), vari
                 c['level'] = level
             out.append(c)
     return out
+
+
+def class_cases(depth: int = 1, *, level: Optional[str] = None, modes=(True,), lf: Optional[int] = None) -> list[dict]:
+    """one case per directive-class document (docs.L_CLASSES)"""
+    out = []
+    for t in docs.class_corpus():
+        for mode in modes:
+            if docs.try_parse(t, M.File, mode) is None:
+                raise AssertionError(f'class corpus text rejected: {t!r}')
+            c = {'text': t, 'mode': mode, 'depth': depth}
+            if level is not None:
+                c['level'] = level
+            if lf is not None:
+                c['lf'] = lf
+            out.append(c)
+    return out
